@@ -3,16 +3,17 @@ import Verif.Model.AcmeSans
   Line-protocol driver for C13 (ACME finalization: CSR names versus order identifiers).
 
   One case per line, `key=value` fields separated by single spaces (unknown keys, e.g. `case=`, are ignored):
-    kind=fin ids=<id,…> fps=<str,…> cfp=<str|!> cn=<str> cnip=<bytes> dns=<str,…> ips=<bytes,…> em=<n> uri=<n>
+    kind=fin ids=<id,…> fps=<str,…> cfp=<str|!> cn=<str> cnip=<bytes> dns=<str,…> ips=<bytes,…> em=<n> uris=<str,…>
+             [dn=<str|!,…> org=<str,…>]   (display-name subject attributes, `!` = not a string; Organization)
     kind=val ids=<id,…>
     kind=ord ids=<id,…> en=<letters h d t a: enabled challenge types>
-  id = `<t>:<value>:<ParseIP(value) bytes>:<sanitize ok 0|1>` with t in d,i,p,u,w,o
+  id = `<t>:<value>:<ParseIP(value) bytes>:<sanitize ok 0|1>[:<wire parsed 0|1>:<name>:<domain>:<uri|!>]` with t in d,i,p,u,w,o
   (dns, ip, permanent-identifier, wireapp-user, wireapp-device, anything else);
   a string / byte string is `x<hex>`, a list is joined by ',' and `-` when empty.
   Output:
     fin: `<class of F>:canon=<dns,…>;<ip,…> sans=<S> fin=<F>`
          S = ok:<san,…> | badcsr | ise | unmodelled | crash      san = d~<str> | i~<16 bytes> | p~<str>
-         F = accept:<leaf|attested>:<cn>:<san,…> | badcsr | unauthorized | ise | unmodelled | crash
+         F = accept:<leaf|attested>:<cn>:<san,…> | acceptwire:<cn>:<org>:<san,…> | badcsr | unauthorized | ise | unmodelled | crash
     val: ok | malformed | unmodelled
     ord: malformed | unmodelled | created:<index of the first identifier with the same authorization,…>:<az|az|…>
          az = <t>~<authorization value>~<wildcard 0|1>~<challenge letters>
@@ -40,6 +41,15 @@ def id? (t : String) : Option Identifier :=
     let ip ← str? c
     let ok ← if d = "1" then some true else if d = "0" then some false else none
     pure { typ := ty, value := v, ip := ip, sanitizeOk := ok }
+  | [a, b, c, d, p, n, dm, u] => do
+    let ty ← typ? a
+    let v ← str? b
+    let ip ← str? c
+    let ok ← if d = "1" then some true else if d = "0" then some false else none
+    let parsed ← if p = "1" then some true else if p = "0" then some false else none
+    let uri ← if u = "!" then some none else (str? u).map some
+    pure { typ := ty, value := v, ip := ip, sanitizeOk := ok,
+           wire := { parsed := parsed, name := (← str? n), domain := (← str? dm), uri := uri } }
   | _ => none
 
 def lookup (kv : List (String × String)) (k : String) : Option String :=
@@ -53,6 +63,15 @@ def sanS : San → String
   | .dns v => "d~" ++ xs v
   | .ip v => "i~" ++ xs v
   | .pid v => "p~" ++ xs v
+  | .uri v => "u~" ++ xs v
+  | .empty => "?~x3a"
+
+/-- as the names appear in the parsed leaf: grouped by kind, a never-written slot as an empty DNS name -/
+def leafS (l : List San) : List String :=
+  (l.filterMap fun | .dns v => some ("d~" ++ xs v) | .empty => some "d~x" | _ => none) ++
+  (l.filterMap fun | .ip v => some ("i~" ++ xs v) | _ => none) ++
+  (l.filterMap fun | .pid v => some ("p~" ++ xs v) | _ => none) ++
+  (l.filterMap fun | .uri v => some ("u~" ++ xs v) | _ => none)
 
 def sansOutS : M SansOut → String
   | .crash => "crash"
@@ -65,6 +84,7 @@ def finOutS : M FinOut → String
   | .crash => "crash"
   | .val (.accept a cn l) =>
     "accept:" ++ (if a then "attested" else "leaf") ++ ":" ++ xs cn ++ ":" ++ listS (l.map sanS)
+  | .val (.acceptWire cn org l) => "acceptwire:" ++ xs cn ++ ":" ++ xs org ++ ":" ++ listS (leafS l)
   | .val .badCSR => "badcsr"
   | .val .unauthorized => "unauthorized"
   | .val .ise => "ise"
@@ -111,8 +131,11 @@ def eval (line : String) : Option String := do
     let dns ← list? str? (← lookup kv "dns")
     let ips ← list? str? (← lookup kv "ips")
     let em ← (← lookup kv "em").toNat?
-    let uri ← (← lookup kv "uri").toNat?
-    let c : Csr := { cn := cn, cnIp := cnip, dns := dns, ips := ips, emails := em, uris := uri }
+    let uris ← list? str? (← lookup kv "uris")
+    let dn ← list? (fun t => if t = "!" then some none else (str? t).map some) ((lookup kv "dn").getD "-")
+    let org ← list? str? ((lookup kv "org").getD "-")
+    let c : Csr := { cn := cn, cnIp := cnip, dns := dns, ips := ips, emails := em, uriStrs := uris,
+                     displayNames := dn, orgs := org }
     let cc := canonicalize c
     let f := finOutS (finalizeNames ids fps cfp c)
     let cls := (f.splitOn ":").headD ""
